@@ -1,4 +1,5 @@
 import IkeProofs.Lemmas.NoFault
+import IkeProofs.Lemmas.PrimsReal
 
 /-!
 # C04 — decoders survive arbitrary bytes
@@ -82,5 +83,12 @@ theorem C04_registry_wf :
 
 example : decodeMsg [] = .err := by decide
 example : parseHeader (List.replicate 28 0) = .err := by decide
+
+/-- The hypothesis `P.Lawful` of the theorems above (no-fault of unprotect and of cipher decryption) is not an assumption about the
+primitives the model actually runs: the executable SHA-256 / SHA-1 / MD5 / HMAC / AES of
+`IkeModel/Crypto` — the ones the correspondence suites compare byte for byte with Go's standard
+library — satisfy it (digest lengths; AES block length; `dec k (enc k b) = b` for every key and
+block, proved from FIPS-197's inverse structure in `Lemmas/PrimsReal.lean`). -/
+theorem C04_real_lawful : Prims.real.Lawful := Prims.real_lawful
 
 end Ike
